@@ -182,6 +182,35 @@ fn point_from_v(dc: &Decaf, v: &BigUint) -> Vec<Pt> {
     }
 }
 
+/// target values for named intermediates: the boundary families of the field (`target_family`)
+/// plus the CURVE CONSTANTS and their simple combinations (what a guard like `x == D - A`, written
+/// against the wrong variable, compares with): {1, 2, a, d, a-d, a-2d, a+d, zeta} closed under
+/// negation, inversion and pairwise product / quotient
+pub fn targets_with_constants(dc: &Decaf) -> Vec<BigUint> {
+    let f = dc.f();
+    let (a, d) = (&dc.c.a, &dc.c.d);
+    let base: Vec<BigUint> = vec![BigUint::one(), u(2), a.clone(), d.clone(), f.sub(a, d), f.sub(a, &f.mul(&u(2), d)), f.add(a, d), dc.zeta.clone(), f.mul(&u(4), d)];
+    let mut v: Vec<BigUint> = vec![];
+    for x in &base {
+        for y in &base {
+            let pr = f.mul(x, y);
+            let qu = f.div(x, y);
+            for t in [pr, qu] {
+                v.push(f.neg(&t));
+                v.push(t);
+            }
+        }
+    }
+    v.sort();
+    v.dedup();
+    v.retain(|x| !x.is_zero());
+    let mut fam = crate::fields::target_family(&f.p, 32);
+    fam.extend(v);
+    fam.sort();
+    fam.dedup();
+    fam
+}
+
 /// r0 with one of {r, den, num, num*den, s} equal to a target (r = zeta r0^2)
 pub fn elligator_by_intermediate(dc: &Decaf) -> Vec<(BigUint, &'static str)> {
     let f = dc.f();
@@ -196,7 +225,7 @@ pub fn elligator_by_intermediate(dc: &Decaf) -> Vec<(BigUint, &'static str)> {
     let x = poly::mul(f, &num, &den);
     let rpoly: Poly = vec![BigUint::zero(), BigUint::one()];
     let zi = f.inv(&dc.zeta).unwrap();
-    let fam = crate::fields::target_family(&f.p, 32);
+    let fam = targets_with_constants(dc);
     fam.par_iter()
         .flat_map(|t| {
             let tc: Poly = vec![t.clone()];
@@ -234,7 +263,7 @@ pub fn decode_by_intermediate(dc: &Decaf) -> Vec<(BigUint, &'static str)> {
     let u2 = poly::sub(f, &u1sq, &lin(BigUint::zero(), f.mul(&u(4), d)));
     let arg = poly::mul(f, &u2, &u1sq);
     let four_s: Poly = vec![BigUint::zero(), u(4)];
-    let fam = crate::fields::target_family(&f.p, 32);
+    let fam = targets_with_constants(dc);
     fam.par_iter()
         .flat_map(|t| {
             let tc: Poly = vec![t.clone()];
@@ -306,7 +335,7 @@ pub fn points_by_intermediate(dc: &Decaf) -> Vec<(Pt, &'static str)> {
     let f = dc.f();
     let d = &dc.c.d;
     let one = BigUint::one();
-    let fam = crate::fields::target_family(&f.p, 32);
+    let fam = targets_with_constants(dc);
     fam.par_iter()
         .flat_map(|t| {
             let mut cands: Vec<(Pt, &'static str)> = vec![];
